@@ -251,6 +251,12 @@ class StdModel:
             if q == 'std::fill_n':
                 return 'xv_fill_n_%s(%s, %s, *%s)' % (S, a[0], a[1], a[2])
             return 'xv_fill_n_%s(%s, (unsigned long)(%s - %s), *%s)' % (S, a[0], a[1], a[0], a[2])
+        if q == 'std::advance':
+            self.used.add(q + ' (pointer iterators: it += n)')
+            ct = em.ctype(dq(args[0]['type']))
+            if not ct.endswith('*'):
+                raise Unsupported('std::advance on non-pointer iterators')
+            return '(%s += %s)' % (em.lv(args[0]), em.rv_or_lv(args[1]))
         if q == 'std::distance':
             self.used.add(q)
             return '(%s - %s)' % (em.rv_or_lv(args[1]), em.rv_or_lv(args[0]))
